@@ -3,11 +3,12 @@
    (None = an exception, a SyntaxError at import, or not exactly one request). *)
 From PG Require Import Lib.Strs Corr.Driver Model.Wire.
 
-(* the operation comes with its path-level and operation-level parameter lists; the loader's merge is part of
-   the model (Wire.merge_params) *)
-Definition input := (list (str * str) * (list param * list param) * op * args)%type.
+(* a case is a call of the k-th operation of a path item: the loader's handling of path-level parameters
+   (every operation of the item inherits them; an operation-level declaration overrides) is part of the
+   model (Wire.item_ops / Wire.merge_params) *)
+Definition input := (list (str * str) * path_item * nat * args)%type.
 Definition op_of (c : input) : op :=
-  let '(_, (pl, ol), o, _) := c in with_params o (merge_params pl ol).
+  let '(_, it, k, _) := c in nth k (item_ops it) no_op.
 Definition obs := option request.
 
 Definition kv_eqb := list_eqb (pair_eqb str_eqb str_eqb).
